@@ -374,9 +374,13 @@ def sec_selfcheck(rep, seed):
 
 
 def run(rep, tier, seed, only=None):
+    from pvc.core import lean_lemmas
+
+    if not only and rep.replay_target is None:
+        rep.add(lean_lemmas("C10", ["tmc_change_of_variables"], tier))
     rep.assume(
         "spec/tmc.py typed from Schienbein et al. (exact + approximate), Bluemlein-Tkabladze / Accardi-Melnitchouk (g1), in yadism's stored conventions F2, FL, xF3, 2x g1",
-        "L-cov: the kernel table k(z) = (xi/z) w(xi/z) is machine-checked (C10/L-cov/*); the substitution rule of integration itself is assumed",
+        "L-cov: the kernel table k(z) = (xi/z) w(xi/z) is machine-checked (C10/L-cov/*); the substitution rule int_xi^1 G(u) du = int_xi^1 dz/z (xi/z) G(xi/z) for G continuous on [xi,1] is machine-checked by Lean 4 + Mathlib in the thorough tier (lemmas/Lemmas.lean, theorem tmc_change_of_variables); an assumption in the quick tier",
         "APFEL mode is specified as 'exact with the nested integral dropped' (docs/theory/misc.rst)",
         "structure functions and convolution integrals are abstract (contracts of sf.get_esf and conv.convolution); eko basis support is a 4-node stub",
         "sqrt atom carries rho^2 = 1 + 4 x^2 M2/Q2; continuity at M=0 from definedness of all coefficients for M2 >= 0",
